@@ -53,6 +53,12 @@ pub struct Case {
     /// which makes run_render drop them and force a clear; Recreate = a Resize event)
     #[serde(default)]
     pub via_run_render: bool,
+    /// run_render sessions only; empty = the terminal executes every command at once. Otherwise the
+    /// terminal queues output like `UnixTerminal` does: what was issued between two polls is one
+    /// chunk, the n-th poll delivers `delivery[n % len]` chunks (255 = all), and `frames_drop`
+    /// discards every chunk but the one at the front of the queue.
+    #[serde(default)]
+    pub delivery: Vec<u8>,
 }
 
 // ---------------------------------------------------------------------------
@@ -107,6 +113,32 @@ const WIDE: &[char] = &['世', '界', '🤩', 'ｗ'];
 // ---------------------------------------------------------------------------
 // the monitoring terminal
 
+/// a command with image identities resolved at the time it was issued
+#[derive(Clone)]
+enum MCmd {
+    Char(char, usize),
+    Face(MFace),
+    CursorTo(usize, usize),
+    Erase(usize),
+    Image(ImgId, usize, usize, usize, usize),
+    ImageErase(ImgId, Option<(usize, usize)>),
+    Problem(String),
+}
+
+/// the frame a chunk of output completes, with the verdict rule fixed when it was rendered
+struct Tag {
+    si: usize,
+    expected: Expected,
+    /// None = deciding; Some(why) = the frame cannot be judged
+    nondeciding: Option<String>,
+}
+
+#[derive(Default)]
+struct Chunk {
+    cmds: Vec<MCmd>,
+    tag: Option<Tag>,
+}
+
 struct ModelTerm {
     size: TerminalSize,
     caps: TerminalCaps,
@@ -128,8 +160,15 @@ struct ModelTerm {
     /// frames_drop was called since the flag was last reset
     dropped: bool,
     /// run_render sessions: the frame that was just rendered and still has to be judged
-    to_judge: Option<(usize, Expected)>,
+    to_judge: Option<Tag>,
     tainted: bool,
+    /// queueing terminal (see Case::delivery)
+    delivery: Vec<u8>,
+    polls: usize,
+    chunks: std::collections::VecDeque<Chunk>,
+    current: Chunk,
+    /// the frame the handler just drew; attached to the chunk that is sealed next
+    pending_tag: Option<Tag>,
     failure: Option<Fail>,
     decided: u64,
     notes: Vec<String>,
@@ -156,6 +195,11 @@ impl ModelTerm {
             dropped: false,
             to_judge: None,
             tainted: false,
+            delivery: Vec::new(),
+            polls: 0,
+            chunks: Default::default(),
+            current: Chunk::default(),
+            pending_tag: None,
             failure: None,
             decided: 0,
             notes: Vec::new(),
@@ -186,19 +230,16 @@ impl ModelTerm {
     /// run_render sessions: compare the screen with the frame that was rendered last; must run
     /// before anything else (dropped frames, forced clear, next frame) touches the terminal
     fn judge(&mut self) {
-        let Some((si, expected)) = self.to_judge.take() else { return };
+        let Some(tag) = self.to_judge.take() else { return };
         if self.failure.is_some() {
             return;
         }
-        if let Some(why) = expected.conflict {
-            self.tainted = true;
-            self.notes.push(format!("nondeciding.{why}"));
+        if let Some(why) = tag.nondeciding {
+            self.notes.push(why);
+            self.screen.problems.clear();
             return;
         }
-        if self.tainted {
-            self.notes.push("nondeciding.after-conflict-frame".into());
-            return;
-        }
+        let (si, expected) = (tag.si, tag.expected);
         self.decided += 1;
         let (h, w) = (self.screen.h, self.screen.w);
         if let Some(problem) = self.screen.problems.first() {
@@ -207,10 +248,76 @@ impl ModelTerm {
                 format!("run_render step {si}: while executing the frame's commands: {problem}"),
             ));
         } else if let Some((clause, what)) = diff(&self.screen, &expected.screen) {
+            let mode = if self.queueing() { " (queueing terminal)" } else { "" };
             self.failure = Some(Fail::new(
                 format!("stale:{clause}"),
-                format!("run_render step {si} ({h}x{w} terminal): after the frame {what}"),
+                format!("run_render step {si} ({h}x{w} terminal{mode}): after the frame {what}"),
             ));
+        }
+        self.screen.problems.clear();
+    }
+
+    fn queueing(&self) -> bool {
+        !self.delivery.is_empty()
+    }
+
+    fn apply(&mut self, cmd: MCmd) {
+        match cmd {
+            MCmd::Char(c, w) => self.screen.put_char(c, w),
+            MCmd::Face(f) => self.screen.set_face(f),
+            MCmd::CursorTo(r, c) => {
+                if r >= self.screen.h || c >= self.screen.w {
+                    self.screen
+                        .problems
+                        .push(format!("cursor moved to ({r}, {c}) outside the {}x{} screen", self.screen.h, self.screen.w));
+                }
+                self.screen.cursor_to(r, c);
+            }
+            MCmd::Erase(n) => self.screen.erase_chars(n),
+            MCmd::Image(id, r, c, h, w) => self.screen.image(id, r, c, h, w),
+            MCmd::ImageErase(id, pos) => self.screen.image_erase(id, pos),
+            MCmd::Problem(p) => self.screen.problems.push(p),
+        }
+    }
+
+    /// what was issued since the last poll becomes one chunk of the output queue
+    fn seal(&mut self) {
+        if self.current.cmds.is_empty() && self.pending_tag.is_none() {
+            return;
+        }
+        let mut chunk = std::mem::take(&mut self.current);
+        chunk.tag = self.pending_tag.take();
+        self.chunks.push_back(chunk);
+    }
+
+    /// the terminal executes the chunk at the front of the queue
+    fn deliver_one(&mut self) -> bool {
+        let Some(chunk) = self.chunks.pop_front() else { return false };
+        for cmd in chunk.cmds {
+            self.apply(cmd);
+        }
+        self.count("queue.chunks-delivered");
+        if let Some(tag) = chunk.tag {
+            self.to_judge = Some(tag);
+            self.judge();
+        }
+        true
+    }
+
+    fn deliver_all(&mut self) {
+        self.seal();
+        while self.deliver_one() {}
+    }
+
+    /// frames rendered before this point saw a terminal that no longer exists (resize reflow)
+    fn invalidate_queued(&mut self, why: &str) {
+        for chunk in self.chunks.iter_mut().chain(std::iter::once(&mut self.current)) {
+            if let Some(tag) = chunk.tag.as_mut() {
+                tag.nondeciding.get_or_insert_with(|| why.to_string());
+            }
+        }
+        if let Some(tag) = self.pending_tag.as_mut() {
+            tag.nondeciding.get_or_insert_with(|| why.to_string());
         }
     }
 }
@@ -226,46 +333,45 @@ impl std::io::Write for ModelTerm {
 
 impl Terminal for ModelTerm {
     fn execute(&mut self, cmd: TerminalCommand) -> Result<(), Error> {
-        match cmd {
+        let cmd = match cmd {
             TerminalCommand::Char(c) => {
                 self.count("cmd.char");
-                self.screen.put_char(c, c.width().unwrap_or(0));
+                MCmd::Char(c, c.width().unwrap_or(0))
             }
             TerminalCommand::Face(f) => {
                 self.count("cmd.face");
-                self.screen.set_face(mface(&f));
+                MCmd::Face(mface(&f))
             }
             TerminalCommand::CursorTo(pos) => {
                 self.count("cmd.cursor");
-                if pos.row >= self.screen.h || pos.col >= self.screen.w {
-                    self.screen
-                        .problems
-                        .push(format!("cursor moved to {:?} outside the {}x{} screen", pos, self.screen.h, self.screen.w));
-                }
-                self.screen.cursor_to(pos.row, pos.col);
+                MCmd::CursorTo(pos.row, pos.col)
             }
             TerminalCommand::EraseChars(n) => {
                 self.count("cmd.erase");
-                self.screen.erase_chars(n);
+                MCmd::Erase(n)
             }
             TerminalCommand::Image(img, pos) => {
                 self.count("cmd.image");
                 let id = self.image_id(&img, Some(pos));
                 let cells = img.size_cells(self.size.pixels_per_cell());
-                self.screen.image(id, pos.row, pos.col, cells.height, cells.width);
+                MCmd::Image(id, pos.row, pos.col, cells.height, cells.width)
             }
             TerminalCommand::ImageErase(img, pos) => {
                 self.count("cmd.image-erase");
                 let id = self.image_id(&img, None);
-                self.screen.image_erase(id, pos.map(|p| (p.row, p.col)));
+                MCmd::ImageErase(id, pos.map(|p| (p.row, p.col)))
             }
             // run_render brackets every frame with synchronized output
             TerminalCommand::DecModeSet { mode: surf_n_term::DecMode::SynchronizedOutput, .. } => {
                 self.count("cmd.sync-output");
+                return Ok(());
             }
-            other => {
-                self.screen.problems.push(format!("unexpected command {other:?}"));
-            }
+            other => MCmd::Problem(format!("unexpected command {other:?}")),
+        };
+        if self.queueing() {
+            self.current.cmds.push(cmd);
+        } else {
+            self.apply(cmd);
         }
         Ok(())
     }
@@ -275,10 +381,26 @@ impl Terminal for ModelTerm {
     }
     fn poll(&mut self, _timeout: Option<std::time::Duration>) -> Result<Option<TerminalEvent>, Error> {
         self.judge();
+        if self.queueing() {
+            // like UnixTerminal::poll: pending output is flushed, then as much is written as the
+            // (scripted) terminal takes
+            self.seal();
+            let n = self.delivery[self.polls % self.delivery.len()];
+            self.polls += 1;
+            for _ in 0..n {
+                if !self.deliver_one() {
+                    break;
+                }
+            }
+            if !self.chunks.is_empty() {
+                self.count("queue.polls-leaving-output-pending");
+            }
+        }
         let event = self.events.pop_front();
         if let Some(TerminalEvent::Resize(_)) = event {
             if let Some(seed) = self.scramble_on_resize.take() {
                 scramble(&mut self.screen, seed);
+                self.invalidate_queued("nondeciding.rendered-before-resize");
             }
         }
         Ok(event)
@@ -293,12 +415,39 @@ impl Terminal for ModelTerm {
         Ok(Position::origin())
     }
     fn frames_pending(&self) -> usize {
-        self.pending
+        self.pending + self.chunks.len()
     }
     fn frames_drop(&mut self) {
         self.judge();
         self.pending = 0;
         self.dropped = true;
+        if self.queueing() {
+            // UnixTerminal keeps the chunk at the front of its queue (it may be half written) and
+            // discards the rest, sealed or not
+            let tail = std::mem::take(&mut self.current);
+            self.pending_tag = None;
+            if self.chunks.is_empty() {
+                self.current = tail;
+            } else {
+                self.deliver_one();
+                let dropped: Vec<Chunk> = self.chunks.drain(..).collect();
+                self.count("queue.drops-with-output-pending");
+                // The renderer cannot know which of its frames the terminal skipped; placements it
+                // removed in a skipped frame are not held against it (they are treated as removed).
+                // Commands issued after the last poll are not frames: losing them is not excused.
+                for chunk in dropped {
+                    self.count("queue.chunks-dropped");
+                    for cmd in chunk.cmds {
+                        if let MCmd::ImageErase(id, pos) = cmd {
+                            self.screen.image_erase(id, pos);
+                        }
+                    }
+                }
+                if !tail.cmds.is_empty() {
+                    self.count("queue.unsealed-output-dropped");
+                }
+            }
+        }
         if let Some(seed) = self.scramble_on_drop.take() {
             scramble(&mut self.screen, seed);
         }
@@ -649,7 +798,13 @@ impl Prop for C01 {
             };
             steps.push(step);
         }
-        Case { h, w, ppc, images, glyphs, steps, via_run_render: rng.chance(1, 4) }
+        let via_run_render = rng.chance(1, 4);
+        let delivery = if via_run_render && rng.bool() {
+            (0..rng.range(1, 6)).map(|_| *rng.pick(&[0u8, 0, 1, 1, 2, 255])).collect()
+        } else {
+            Vec::new()
+        };
+        Case { h, w, ppc, images, glyphs, steps, via_run_render, delivery }
     }
 
     fn check(case: &Case, ctx: &mut Ctx) -> Result<(), Fail> {
@@ -884,6 +1039,7 @@ fn check_via_run_render(case: &Case, world: &World, pool: Vec<Image>, ctx: &mut 
     use surf_n_term::TerminalAction;
     let (h, w) = (case.h, case.w);
     let mut term = ModelTerm::new(h, w, case.ppc, pool);
+    term.delivery = case.delivery.clone();
     let mut glyph_keys: Vec<(usize, Face)> = Vec::new();
     let mut next = 0usize;
     let mut feats: Vec<String> = Vec::new();
@@ -939,8 +1095,23 @@ fn check_via_run_render(case: &Case, world: &World, pool: Vec<Image>, ctx: &mut 
                     let cells = snapshot_surface(world, &surf, &mut glyph_keys, &mut glyph_at);
                     let expected = paint(h, w, &cells);
                     term.glyph_at = glyph_at;
-                    term.screen.problems.clear();
-                    term.to_judge = Some((si, expected));
+                    // whether the frame can be judged is settled in render order: a frame with
+                    // conflicting claims leaves terminal-defined content until the next forced clear
+                    let nondeciding = if let Some(why) = expected.conflict {
+                        term.tainted = true;
+                        Some(format!("nondeciding.{why}"))
+                    } else if term.tainted {
+                        Some("nondeciding.after-conflict-frame".to_string())
+                    } else {
+                        None
+                    };
+                    let tag = Tag { si, expected, nondeciding };
+                    if term.queueing() {
+                        term.pending_tag = Some(tag);
+                    } else {
+                        term.screen.problems.clear();
+                        term.to_judge = Some(tag);
+                    }
                     return Ok(TerminalAction::Wait);
                 }
             }
@@ -949,6 +1120,11 @@ fn check_via_run_render(case: &Case, world: &World, pool: Vec<Image>, ctx: &mut 
     match result {
         Err(Stop(Some(fail))) => return Err(fail),
         Err(Stop(None)) | Ok(()) => {}
+    }
+    if term.queueing() {
+        // the session is over: the terminal catches up with everything still queued
+        term.deliver_all();
+        ctx.feat("run_render.sessions-on-queueing-terminal");
     }
     if let Some(fail) = term.failure.take() {
         return Err(fail);
